@@ -141,9 +141,49 @@ def strip_cfg_debug(body, profile, log_rules):
     return body
 
 
+def for_continue_to_while(body, log_rules):
+    """R-forcontinue: Verus rejects `continue` inside `for`. A `for X in A..B { .. continue; .. }` whose own body (not a nested loop)
+    contains `continue` becomes `let verif_end_X = B; let mut X = A; while X < verif_end_X { .. { X += 1; continue; } .. X += 1; }`
+    (same iteration order, the end bound is still evaluated once)."""
+    changed = True
+    while changed:
+        changed = False
+        mask = L.code_mask(body)
+        loops = L.find_loops(body, mask)
+        for (kw, bopen) in loops:
+            if not body.startswith("for", kw):
+                continue
+            hdr = body[kw:bopen]
+            m = re.match(r"for\s+(\w+)\s+in\s+(.+?)\.\.(.+?)\s*$", hdr, re.S)
+            if not m or m.group(3).startswith("="):
+                continue
+            var, lo, hi = m.group(1), m.group(2).strip(), m.group(3).strip()
+            bclose = L.match_close(body, mask, bopen)
+            # nested loop ranges inside this body
+            nested = [(k2, L.match_close(body, mask, b2)) for (k2, b2) in loops if bopen < k2 < bclose]
+            conts = [mm.start() for mm in re.finditer(r"\bcontinue\s*;", body[bopen:bclose])]
+            conts = [bopen + c for c in conts if mask[bopen + c] and not any(a <= bopen + c <= b for (a, b) in nested)]
+            if not conts:
+                continue
+            inner = body[bopen + 1:bclose]
+            # replace from the back so indices stay valid
+            for c in reversed(conts):
+                rel = c - (bopen + 1)
+                mm = re.match(r"continue\s*;", inner[rel:])
+                inner = inner[:rel] + "{ %s += 1; continue; }" % var + inner[rel + mm.end():]
+            new = ("let verif_end_%s: usize = %s;\n        let mut %s: usize = %s;\n        while %s < verif_end_%s {%s    %s += 1;\n        }"
+                   % (var, hi, var, lo, var, var, inner, var))
+            body = body[:kw] + new + body[bclose + 1:]
+            log_rules.add("R-forcontinue `for X in A..B` containing `continue` -> equivalent `while` with explicit increment (end bound evaluated once)")
+            changed = True
+            break
+    return body
+
+
 def apply_rules(body, profile, log_rules):
     ctr = [0]
     body = strip_cfg_debug(body, profile, log_rules)
+    body = for_continue_to_while(body, log_rules)
 
     def rm(args, semi):
         log_rules.add("R-mac0 vprintln! removed")
@@ -272,7 +312,7 @@ def expand_includes(text):
     for ln in text.split("\n"):
         if ln.startswith("//@include "):
             inc = os.path.join(CONTRACTS, "verus", "include", ln.split()[1])
-            out.extend(read(inc).split("\n"))
+            out.extend(expand_includes(read(inc)).split("\n"))
         else:
             out.append(ln)
     return "\n".join(out)
